@@ -15,6 +15,10 @@ def main(tier, seed):
     items = fam_tt.sweep_family(tier)
     items += [it for it in fam_ops.write_family(seed, 'quick', [2]) if 'tight' in it.meta['family']]
     items += [it for it in fam_ops.fault_family(seed, tier) if it.meta['family'].startswith(('fault:idx', 'fault:vla'))][::2 if quick else 1]
+    from hv import fam_seq
+    # every element of zero-initialised globals and of dynamic arrays is written: an extent that is too small shows as a
+    # store outside it (ElemInExtent) or in what the neighbours then hold
+    items += [it for it in fam_seq.misc(seed, tier) if it.key[1] in ('global_arrays_sized', 'vla_length_sources', 'zeros_over_used_stack')]
     gen = families.generated(seed + 4, 25 if quick else 300, feat={'faults': 0.2}, inputs=2, family='gen4')
     items += gen
     # random programs at every stack size from their minimum down to several words below
